@@ -280,6 +280,8 @@ static mi_decl_noinline void* mi_arena_try_alloc_at(mi_arena_t* arena, size_t ar
       bool commit_zero = false;
       if (!_mi_os_commit_ex(p, commit_size, &commit_zero, stat_commit_size)) {
         memid->initially_committed = false;
+        // the commit failed: do not leave the range recorded as committed (it is recommitted as a whole when it is used again)
+        _mi_bitmap_unclaim_across(arena->blocks_committed, arena->field_count, needed_bcount, bitmap_index);
       }
       else {
         if (commit_zero) { memid->initially_zero = true; }
